@@ -156,7 +156,7 @@ def parse_list_after(out, name):
 def eval_shard(path):
     d, f = os.path.dirname(path), os.path.basename(path)
     t0 = time.time()
-    rc, out = sh(["timeout", "900", "coqc", "-Q", COQ, "Flyt", f], cwd=d, env=COQENV)
+    rc, out = sh(["timeout", "2400", "coqc", "-Q", COQ, "Flyt", f], cwd=d, env=COQENV)
     res = {"shard": f, "rc": rc, "wall": time.time() - t0, "bad": [], "ctl": None, "out": out[-3000:]}
     if rc != 0:
         return res
